@@ -72,9 +72,16 @@ def witnessNulKey : ObjS :=
   { kind := .node, fixed := ctorFixed .node, user := [], subs := [.tags [([97, 0, 98], [118])]] }
 
 /-- F13b witness: a changeset whose discussion holds a comment without text (what the XML reader
-    builds for `<comment …/>`). -/
+    built for `<comment …/>` before repair 5690f83). -/
 def witnessNoText : ObjS :=
   { kind := .changeset, fixed := ctorFixed .changeset, user := [97], subs := [.discussion [⟨1, 2, [117], none⟩]] }
+
+/-- API misuse that remains possible (but that no reader of the library issues): a text-less
+    comment FOLLOWED by another `add_comment` — assertion in debug builds, unpadded comment with
+    NDEBUG. -/
+def witnessNoTextMiddle : ObjS :=
+  { kind := .changeset, fixed := ctorFixed .changeset, user := [97],
+    subs := [.discussion [⟨1, 2, [117], none⟩, ⟨3, 4, [118], some [116]⟩]] }
 
 theorem witnessNulKey_passes_builder_checks : BuilderChecks witnessNulKey :=
   ⟨by decide, by decide⟩
@@ -86,25 +93,40 @@ theorem witnessNoText_passes_builder_checks : BuilderChecks witnessNoText :=
 theorem f13a_nul_in_tag_key_traverse_oob : decodeAll (build 0 witnessNulKey) = .error .oob :=
   eq_oob_of_isOob _ (by decide +kernel)
 
-/-- F13b in the model: the unpadded comment's `next()` lies behind the end of the discussion. -/
-theorem f13b_comment_without_text_traverse_oob : decodeAll (build 0 witnessNoText) = .error .oob :=
+/-- F13b BEFORE repair 5690f83 (regression documentation): the pending comment stayed without
+    text and padding, its `next()` lies behind the end of the discussion. -/
+theorem f13b_prefix_comment_without_text_traverse_oob : decodeAll (Pre.build 0 witnessNoText) = .error .oob :=
   eq_oob_of_isOob _ (by decide +kernel)
 
-/-- The full statement is FALSE for the code as it is: the builders do not check enough. -/
+/-- F13b NOW: the builder's destructor finishes the pending comment with an empty text; the
+    changeset is well-formed, satisfies `Guards` and is traversed completely. -/
+theorem f13b_comment_without_text_now_wf :
+    WF (build 0 witnessNoText) = true ∧ Guards 0 witnessNoText ∧
+    build 0 witnessNoText = build 0 { witnessNoText with subs := [.discussion [⟨1, 2, [117], some []⟩]] } :=
+  ⟨by decide +kernel, by decide, by decide +kernel⟩
+
+/-- the remaining API misuse still breaks the layout (NDEBUG) -/
+theorem comment_without_text_in_the_middle_traverse_oob :
+    BuilderChecks witnessNoTextMiddle ∧ decodeAll (build 0 witnessNoTextMiddle) = .error .oob :=
+  ⟨⟨by decide, by decide⟩, eq_oob_of_isOob _ (by decide +kernel)⟩
+
+/-- The builder-level full statement is FALSE: the builders' own checks do not include "no NUL in
+    tag keys / values" (nor "every comment but the last has a text").  These guards are
+    established by the READERS: PBF — `pbf_decoded_objects_wf` (Props/C03Pbf.lean, full since the
+    string table rejects NUL: da64936); XML / OPL / o5m hand `const char*` / std::string pieces cut
+    at the first NUL to `add_tag` (the o5m decoder walks to the NUL itself: `O5m.walkPost`), and the
+    XML reader keeps the discussion protocol since 5690f83 (Props/C03Text.lean). -/
 theorem builders_produce_wf_refuted : ¬ BuildersProduceWF := by
   intro h
   have := h 0 witnessNulKey witnessNulKey_passes_builder_checks
   rw [oob_not_wf _ f13a_nul_in_tag_key_traverse_oob] at this
   exact Bool.noConfusion this
 
-/-- … and the second extra guard is needed independently of the first -/
-theorem builders_produce_wf_refuted_by_comment : WF (build 0 witnessNoText) = false :=
-  oob_not_wf _ f13b_comment_without_text_traverse_oob
-
 /-- `builders_produce_wf`, under the guards the proof forces (`Guards` = the builders' length checks
-    PLUS: tag keys/values NUL-free, every `add_comment` followed by `add_comment_text`, user name
-    shorter than 65535 bytes, item smaller than 4 GiB; for the exact read-back also the other
-    strings NUL-free): the built object is well-formed. -/
+    PLUS: tag keys/values NUL-free, every `add_comment` but the last of a block followed by
+    `add_comment_text` (the destructor finishes the last one), item smaller than 4 GiB; for the exact
+    read-back also the other strings NUL-free): the built object is well-formed.  `_partial` because
+    of these extra hypotheses on the builder calls — see `builders_produce_wf_refuted`. -/
 theorem builders_produce_wf_partial (fill : UInt8) (o : ObjS) (g : Guards fill o) : WF (build fill o) = true := by
   obtain ⟨fields, hd⟩ := decodeAll_build fill o g
   unfold WF
@@ -126,7 +148,8 @@ def exampleOk : ObjS :=
 
 example : Guards 190 exampleOk := by decide
 example : ¬ Guards 0 witnessNulKey := by decide
-example : ¬ Guards 0 witnessNoText := by decide
+example : Guards 0 witnessNoText := by decide
+example : ¬ Guards 0 witnessNoTextMiddle := by decide
 
 /-- The guard "no NUL in roles / user names" is NOT needed for in-bounds traversal (those strings are
     delimited by their size fields; the walk only reads a shorter C string): witness. -/
@@ -135,7 +158,9 @@ theorem nul_in_role_still_wf :
                   subs := [.members [⟨1, 5, [114, 0, 120]⟩]] }) = true := by
   decide +kernel
 
-/-- F13c in the model: `set_user` with 65535 bytes leaves user_size = 0 (16-bit wrap) … -/
+/-- F13c BEFORE repair bc6b907 (regression documentation; `set_user` now throws std::length_error
+    beyond 1024 bytes — Model/OplFmt.lean `setUserCheck`, Model/XmlFmt.lean `initObject`): `set_user`
+    with 65535 bytes left user_size = 0 (16-bit wrap) … -/
 theorem f13c_user_size_wraps :
     Layout.leBytes ((List.replicate 65535 (117 : UInt8)).length + 1) 2 = [0, 0] := by
   decide +kernel
@@ -157,11 +182,11 @@ theorem f13c_user_size_zero_traverse_oob :
 
 /-! ### `build` is what the C04 buffer model computes for the same call sequence -/
 
-/-- the byte strings agree on the examples (all five object kinds' code paths, incl. the F13b
-    witness); the hostile tier compares `build` with the REAL builders on random scripts every run -/
+/-- the byte strings agree on the examples (all five object kinds' code paths); the hostile tier
+    compares `build` with the REAL builders on random scripts every run (incl. scripts whose last
+    comment has no text) -/
 theorem script_build_examples :
     (runScript 190 exampleOk).1 = build 190 exampleOk ∧ (runScript 190 exampleOk).2 = none ∧
-    (runScript 190 witnessNoText).1 = build 190 witnessNoText ∧
     (runScript 190 witnessNulKey).1 = build 190 witnessNulKey ∧
     (runScript 7 { kind := .way, fixed := ctorFixed .way, user := [97, 98, 99, 100, 101],
                    subs := [.nodes tyWayNodeList [⟨1, 2, 3⟩, ⟨-1, -2, -3⟩], .tags [([107], [])]] }).1 =
